@@ -1110,3 +1110,68 @@ Proof.
   split; [|split; reflexivity].
   exists (mklnk 0%N ("s", "0.1.0") []). split; [left; reflexivity | reflexivity].
 Qed.
+
+(** ** [load] does not depend on the order in which the stored schema records are listed
+    (h5py / IH5 list the [schemas] group by record name). *)
+From Coq Require Import Permutation.
+
+Lemma kget_perm : forall (X : Type) (k : key) (m m' : list (key * X)),
+  NoDup (map fst m) -> Permutation m m' -> kget k m' = kget k m.
+Proof.
+  intros X k m m' Hnd Hp.
+  assert (Hnd' : NoDup (map fst m')).
+  { apply (Permutation_NoDup (Permutation_map fst Hp) Hnd). }
+  destruct (kget k m) as [x|] eqn:E.
+  - apply In_kget; [exact Hnd'|]. apply (Permutation_in _ Hp). apply kget_In. exact E.
+  - destruct (kget k m') as [y|] eqn:E'; [|reflexivity].
+    apply kget_In in E'. apply (Permutation_in _ (Permutation_sym Hp)) in E'.
+    apply (In_kget _ _ _ Hnd) in E'. congruence.
+Qed.
+
+Lemma khas_perm : forall (X : Type) (k : key) (m m' : list (key * X)),
+  NoDup (map fst m) -> Permutation m m' -> khas k m' = khas k m.
+Proof. intros. unfold khas. rewrite (kget_perm X k m m'); auto. Qed.
+
+Definition with_schemas (st : toc) (sch : list (sref * srec)) : toc :=
+  mktoc (links st) sch (pkgs st) (parents st) (children st) (used st) (next st).
+
+Lemma desc_perm : forall E st sch, Desc E st -> Permutation (schemas st) sch ->
+  Desc E (with_schemas st sch).
+Proof.
+  intros E st sch H Hp.
+  pose proof (d_sch_keys _ _ H) as Hnd.
+  assert (Hk : forall r, kget r sch = kget r (schemas st)) by (intros; apply kget_perm; auto).
+  assert (Hh : forall r, khas r sch = khas r (schemas st)) by (intros; apply khas_perm; auto).
+  destruct H. constructor; unfold with_schemas; simpl; unfold inuse in *; simpl;
+    try assumption.
+  - intros l Hl. rewrite Hh. auto.
+  - intros r rec Hr. rewrite Hk in Hr. eauto.
+  - intros r Hr. rewrite Hh in Hr. auto.
+  - apply (Permutation_NoDup (Permutation_map fst Hp) Hnd).
+  - intros r Hr. rewrite Hh in Hr. auto.
+  - intros p m Hin. destruct (d_pkg_only0 p m Hin) as [Ha [r [Hr Hm]]].
+    split; [exact Ha|]. exists r. rewrite Hh. auto.
+  - intros p r. rewrite Hh. apply d_used0.
+  - intros r Hr. rewrite Hh in Hr. auto.
+Qed.
+
+Theorem load_order_irrelevant : forall E st sch, env_wf E -> Desc E st ->
+  Permutation (schemas st) sch ->
+  pkgs (load (with_schemas st sch)) = pkgs (load st) /\
+  forall r, khas r (schemas st) = true ->
+    rep_json (load (with_schemas st sch)) r = rep_json (load st) r /\
+    rep_parents (load (with_schemas st sch)) r = rep_parents (load st) r /\
+    rep_provider (load (with_schemas st sch)) r = rep_provider (load st) r.
+Proof.
+  intros E st sch WF H Hp. split; [reflexivity|]. intros r Hr.
+  pose proof (desc_perm E st sch H Hp) as H'.
+  destruct (reopen_same E st WF H) as [_ [_ [_ [_ HL]]]].
+  destruct (reopen_same E _ WF H') as [_ [_ [_ [_ HL']]]].
+  split; [|split; [|reflexivity]].
+  - unfold rep_json, load, with_schemas. simpl.
+    rewrite (kget_perm _ r (schemas st) sch (d_sch_keys _ _ H) Hp). reflexivity.
+  - unfold rep_parents.
+    rewrite (d_par _ _ HL r) by exact Hr.
+    apply (d_par _ _ HL' r). simpl.
+    rewrite (khas_perm _ r (schemas st) sch (d_sch_keys _ _ H) Hp). exact Hr.
+Qed.
